@@ -269,6 +269,43 @@ func RunConfig(c *Ctx) error {
 		c.Tr.Emit("CfgRoundTrip", world.F{"ok": ok, "diff": diff + " (zero value of " + l.path + ")"})
 	}
 	removeFile()
+	// the same command object loads, the file is rewritten (every option changed), the same command loads again:
+	// the second result is what the second file says (a node that re-reads its configuration, an init followed by
+	// a start inside one process)
+	{
+		cmd := newCmd()
+		ok := cmd.ParseFlags([]string{"--home", home}) == nil
+		first := config.DefaultConfig
+		if first.Instrumentation != nil {
+			cp := *first.Instrumentation
+			first.Instrumentation = &cp
+		}
+		for _, l := range leaves {
+			d := config.DefaultConfig
+			setLeaf(&first, l, "L", leafString(&d, l))
+		}
+		diff := ""
+		if ok && writeFile(first) == nil {
+			if _, err := config.Load(cmd); err != nil {
+				ok = false
+			}
+			if ok && writeFile(full) == nil {
+				back, err := config.Load(cmd)
+				ok = err == nil
+				for _, l := range leaves {
+					if ok && leafString(&back, l) != leafString(&full, l) {
+						ok, diff = false, l.path
+					}
+				}
+			} else {
+				ok = false
+			}
+		} else {
+			ok = false
+		}
+		c.Tr.Emit("CfgRoundTrip", world.F{"ok": ok, "diff": diff + " (second load on the same command)"})
+	}
+	removeFile()
 	// genesis
 	g := genesis.NewGenesis("chain-x", 7, time.Unix(1700000000, 0).UTC(), []byte{1, 2, 3, 4})
 	gp := home + "/genesis.json"
